@@ -270,6 +270,56 @@ func init() {
 		m.chanN++
 		return &Chan{id: m.chanN, cap: 1}
 	})
+	// (Time).Format("2006-01-02") of a symbolic instant: the ISO date is modelled by the order- and
+	// equality-preserving token "#" + 8-digit day number floor((unix+zoneoffset)/86400). Harness oracles
+	// read it back with vlib.DayOf, which also understands real ISO dates (native replay).
+	reg("(time.Time).Format", func(m *Machine, fr *frame, a []Value) Value {
+		t := a[0].(Struct)
+		layout, ok := a[1].(Str).Concrete()
+		wall, ext := t[0].(*Term), t[1].(*Term)
+		if !ok || layout != "2006-01-02" || ext.IsConst() || !wall.IsConst() || wall.C != 0 {
+			return fallThrough
+		}
+		unix := BVBin(OpBVAdd, ext, BV(64, uint64(^uint64(62135596800)+1)))
+		off := BV(64, 0)
+		if loc, _ := t[2].(*Value); loc != nil {
+			lp := m.global(m.P.pkgs["time"].Var("localLoc"))
+			if loc == lp && m.tzOff != nil {
+				off = m.tzOff
+			}
+		}
+		sec := BVBin(OpBVAdd, unix, off)
+		if m.decide(BVCmp(OpBVSlt, sec, BV(64, 0))) {
+			m.unsupported("Format of an instant before 1970")
+		}
+		day := BVBin(OpBVSDiv, sec, BV(64, 86400))
+		if !m.decide(BVCmp(OpBVSlt, day, BV(64, 100000000))) {
+			m.unsupported("Format of an instant beyond day 10^8")
+		}
+		m.stubs["model:time.Format(2006-01-02) = '#'+8-digit day number"]++
+		out := []*Term{BV(8, '#')}
+		acc := BV(64, 0)
+		var known uint64
+		have := false
+		if v, ok := m.path.evalUnder(day); ok {
+			known, have = v, true
+		}
+		for i := 0; i < 8; i++ {
+			d := m.path.NewAux("dd", SBV(8))
+			if have {
+				p := uint64(1)
+				for k := 0; k < 7-i; k++ {
+					p *= 10
+				}
+				m.path.model[d.Name] = (known / p) % 10
+			}
+			m.path.assert(BVCmp(OpBVUle, d, BV(8, 9)))
+			out = append(out, BVBin(OpBVAdd, d, BV(8, '0')))
+			acc = BVBin(OpBVAdd, BVBin(OpBVMul, acc, BV(64, 10)), Zext(d, 64))
+		}
+		m.path.assert(Eq(acc, day))
+		return StrFromTerms(out)
+	})
 	reg("time.runtimeNano", func(m *Machine, fr *frame, a []Value) Value { return BV(64, 1) })
 	reg("time.Sleep", func(m *Machine, fr *frame, a []Value) Value { m.yield(); return nil })
 	reg("time.initLocal", func(m *Machine, fr *frame, a []Value) Value {
